@@ -4,6 +4,12 @@ package protocol
 
 // Contracts for internal/protocol (properties C05, C08, C15, C16).
 
+// Type invariant of ConnectionID: its length field never exceeds the 20 bytes of its array. The field is unexported:
+// only the constructors of this package write it (ParseConnectionID, GenerateConnectionID, ReadConnectionID,
+// GenerateConnectionIDForInitial[WithLen]); the bound is proved for every value a function under contract here returns
+// and assumed wherever a ConnectionID is met in another package.
+//@ fieldbound ConnectionID.l <= 20
+
 //@ func ParseConnectionID
 //@   props C08
 //@   panics when len(b) > 20
